@@ -648,3 +648,187 @@ int lemma_mt_min_shortcuts_pw(struct forest *fa, struct forest *fb, struct fores
     return ok;
 }
 void h_mt_min_shortcuts_pw(void) { struct forest *fa, *fb, *fc; node_handle w_a = nondet_int(), w_b = nondet_int(), w_pa = nondet_int(), w_pb = nondet_int(); lemma_mt_min_shortcuts_pw(fa, fb, fc, w_a, w_b, w_pa, w_pb); CANARY(); }
+
+int lemma_evplus_max_kernel(const struct edge_value *av_, node_handle ap, const struct edge_value *bv_, node_handle bp)
+{
+    _Bool ai = (ap == OMEGA_INFINITY), bi = (bp == OMEGA_INFINITY); long av = av_->ev_long, bv = bv_->ev_long;
+    struct edge_value cv; node_handle cn = 12345; cv.mytype = edge_type__VOID;
+    evplus_max__apply(av_, ap, bv_, bp, &cv, &cn);
+    int exc = verif_exc; verif_exc = 0;
+    if (ai || bi) return exc == 0 && cn == OMEGA_INFINITY;
+    return exc == 0 && cn == OMEGA_NORMAL && cv.mytype == edge_type__LONG && cv.ev_long == (av > bv ? av : bv);
+}
+void h_evplus_max_kernel(void) { struct edge_value *x, *y; node_handle w_ap = nondet_int(), w_bp = nondet_int(); lemma_evplus_max_kernel(x, w_ap, y, w_bp); CANARY(); }
+int lemma_evplus_max_shortcuts_pw(struct forest *f1, struct forest *f2, const struct edge_value *av_, node_handle ap, const struct edge_value *bv_, node_handle bp, long da, _Bool dai, long db, _Bool dbi)
+{
+    int ok = 0;
+    struct edge_value pa, pb, cv, want; node_handle pan, pbn, cn, wn;
+    evp_point(av_->ev_long, ap, da, dai, &pa, &pan); evp_point(bv_->ev_long, bp, db, dbi, &pb, &pbn);
+    { node_handle an1 = ap;
+      if (evplus_max__simplifiesToFirstArg(0, f1, av_, &an1, f2, bv_, bp)) {
+          if (an1 == ap || an1 <= 0) {
+              evp_point(av_->ev_long, an1, da, dai, &want, &wn);
+              evplus_max__apply(&pa, pan, &pb, pbn, &cv, &cn);
+              if (verif_exc == 0 && cn == wn && (cn == OMEGA_INFINITY || (cv.mytype == edge_type__LONG && cv.ev_long == want.ev_long))) ok |= 1;
+              verif_exc = 0;
+          }
+      } else ok |= 1; }
+    { node_handle bn1 = bp;
+      if (evplus_max__simplifiesToSecondArg(0, f1, av_, ap, f2, bv_, &bn1)) {
+          if (bn1 == bp || bn1 <= 0) {
+              evp_point(bv_->ev_long, bn1, db, dbi, &want, &wn);
+              evplus_max__apply(&pa, pan, &pb, pbn, &cv, &cn);
+              if (verif_exc == 0 && cn == wn && (cn == OMEGA_INFINITY || (cv.mytype == edge_type__LONG && cv.ev_long == want.ev_long))) ok |= 2;
+              verif_exc = 0;
+          }
+      } else ok |= 2; }
+    { if (evplus_max__stopOnEqualArgs()) {           /* makeEqualResult copies the argument: op(x, x) must be x at every assignment */
+          evplus_max__apply(&pa, pan, &pa, pan, &cv, &cn);
+          if (verif_exc == 0 && cn == pan && (cn == OMEGA_INFINITY || (cv.mytype == edge_type__LONG && cv.ev_long == pa.ev_long))) ok |= 4;
+          verif_exc = 0;
+      } else ok |= 4; }
+    return ok;
+}
+void h_evplus_max_shortcuts_pw(void) { struct forest *f1, *f2; struct edge_value *x, *y; node_handle w_ap = nondet_int(), w_bp = nondet_int(); long w_da = nondet_long(), w_db = nondet_long(); w_av = nondet_long(); w_bv = nondet_long(); _Bool w_dai = nondet_bool(), w_dbi = nondet_bool();
+    lemma_evplus_max_shortcuts_pw(f1, f2, x, w_ap, y, w_bp, w_da, w_dai, w_db, w_dbi); CANARY(); }
+
+int lemma_evplus_min_kernel(const struct edge_value *av_, node_handle ap, const struct edge_value *bv_, node_handle bp)
+{
+    _Bool ai = (ap == OMEGA_INFINITY), bi = (bp == OMEGA_INFINITY); long av = av_->ev_long, bv = bv_->ev_long;
+    struct edge_value cv; node_handle cn = 12345; cv.mytype = edge_type__VOID;
+    evplus_min__apply(av_, ap, bv_, bp, &cv, &cn);
+    int exc = verif_exc; verif_exc = 0;
+    if (ai && bi) return exc == 0 && cn == OMEGA_INFINITY;
+    if (ai) return exc == 0 && cn == OMEGA_NORMAL && cv.mytype == edge_type__LONG && cv.ev_long == bv;     /* infinity is the top element */
+    if (bi) return exc == 0 && cn == OMEGA_NORMAL && cv.mytype == edge_type__LONG && cv.ev_long == av;
+    return exc == 0 && cn == OMEGA_NORMAL && cv.mytype == edge_type__LONG && cv.ev_long == (av < bv ? av : bv);
+}
+void h_evplus_min_kernel(void) { struct edge_value *x, *y; node_handle w_ap = nondet_int(), w_bp = nondet_int(); lemma_evplus_min_kernel(x, w_ap, y, w_bp); CANARY(); }
+int lemma_evplus_min_shortcuts_pw(struct forest *f1, struct forest *f2, const struct edge_value *av_, node_handle ap, const struct edge_value *bv_, node_handle bp, long da, _Bool dai, long db, _Bool dbi)
+{
+    int ok = 0;
+    struct edge_value pa, pb, cv, want; node_handle pan, pbn, cn, wn;
+    evp_point(av_->ev_long, ap, da, dai, &pa, &pan); evp_point(bv_->ev_long, bp, db, dbi, &pb, &pbn);
+    { node_handle an1 = ap;
+      if (evplus_min__simplifiesToFirstArg(0, f1, av_, &an1, f2, bv_, bp)) {
+          if (an1 == ap || an1 <= 0) {
+              evp_point(av_->ev_long, an1, da, dai, &want, &wn);
+              evplus_min__apply(&pa, pan, &pb, pbn, &cv, &cn);
+              if (verif_exc == 0 && cn == wn && (cn == OMEGA_INFINITY || (cv.mytype == edge_type__LONG && cv.ev_long == want.ev_long))) ok |= 1;
+              verif_exc = 0;
+          }
+      } else ok |= 1; }
+    { node_handle bn1 = bp;
+      if (evplus_min__simplifiesToSecondArg(0, f1, av_, ap, f2, bv_, &bn1)) {
+          if (bn1 == bp || bn1 <= 0) {
+              evp_point(bv_->ev_long, bn1, db, dbi, &want, &wn);
+              evplus_min__apply(&pa, pan, &pb, pbn, &cv, &cn);
+              if (verif_exc == 0 && cn == wn && (cn == OMEGA_INFINITY || (cv.mytype == edge_type__LONG && cv.ev_long == want.ev_long))) ok |= 2;
+              verif_exc = 0;
+          }
+      } else ok |= 2; }
+    { if (evplus_min__stopOnEqualArgs()) {           /* makeEqualResult copies the argument: op(x, x) must be x at every assignment */
+          evplus_min__apply(&pa, pan, &pa, pan, &cv, &cn);
+          if (verif_exc == 0 && cn == pan && (cn == OMEGA_INFINITY || (cv.mytype == edge_type__LONG && cv.ev_long == pa.ev_long))) ok |= 4;
+          verif_exc = 0;
+      } else ok |= 4; }
+    return ok;
+}
+void h_evplus_min_shortcuts_pw(void) { struct forest *f1, *f2; struct edge_value *x, *y; node_handle w_ap = nondet_int(), w_bp = nondet_int(); long w_da = nondet_long(), w_db = nondet_long(); w_av = nondet_long(); w_bv = nondet_long(); _Bool w_dai = nondet_bool(), w_dbi = nondet_bool();
+    lemma_evplus_min_shortcuts_pw(f1, f2, x, w_ap, y, w_bp, w_da, w_dai, w_db, w_dbi); CANARY(); }
+
+/* factored interface: value of the node function at the assignment the ghost stands for */
+static void evf_point(node_handle n, long d, _Bool di, long *pv, node_handle *pn)
+{
+    if (n == OMEGA_INFINITY) { *pn = OMEGA_INFINITY; *pv = 0; }
+    else if (n == OMEGA_NORMAL) { *pn = OMEGA_NORMAL; *pv = 0; }
+    else if (di) { *pn = OMEGA_INFINITY; *pv = 0; }
+    else { *pn = OMEGA_NORMAL; *pv = d; }
+}
+
+int lemma_evplus_plus_kernel(struct forest *fa, struct forest *fb, struct forest *fc, node_handle a, node_handle b, const struct edge_value *av_, const struct edge_value *bv_)
+{
+    _Bool ai = (a == OMEGA_INFINITY), bi = (b == OMEGA_INFINITY);
+    struct edge_value cv; node_handle cn = 12345; cv.mytype = edge_type__VOID;
+    evplus_plus__apply_node(fa, a, fb, b, fc, &cn);
+    int exc = verif_exc; verif_exc = 0;
+    if (exc == 0) evplus_plus__apply_edge(av_, bv_, &cv);
+    if (ai || bi) return exc == 0 && cn == OMEGA_INFINITY;
+    return exc == 0 && cn == OMEGA_NORMAL && cv.mytype == edge_type__LONG && cv.ev_long == av_->ev_long + bv_->ev_long;
+}
+void h_evplus_plus_kernel(void) { struct forest *fa, *fb, *fc; struct edge_value *x, *y; node_handle w_a = nondet_int(), w_b = nondet_int(); lemma_evplus_plus_kernel(fa, fb, fc, w_a, w_b, x, y); CANARY(); }
+/* whenever a predicate answers "the result is the first (second) node", the node-level kernel on the operands' values at an arbitrary assignment
+ * raises nothing and, with the edge-level kernel, gives that node's value there */
+static int evf_plus_agrees(struct forest *fa, struct forest *fb, struct forest *fc, long pav, node_handle pan, long pbv, node_handle pbn, long wv, node_handle wn)
+{
+    node_handle cn = 12345; struct edge_value x, y, c; x.mytype = edge_type__LONG; x.ev_long = pav; y.mytype = edge_type__LONG; y.ev_long = pbv; c.mytype = edge_type__VOID;
+    evplus_plus__apply_node(fa, pan, fb, pbn, fc, &cn);
+    if (verif_exc) { verif_exc = 0; return 0; }
+    if (cn == OMEGA_INFINITY) return wn == OMEGA_INFINITY;
+    evplus_plus__apply_edge(&x, &y, &c);
+    return wn == OMEGA_NORMAL && c.mytype == edge_type__LONG && c.ev_long == wv;
+}
+int lemma_evplus_plus_shortcuts_pw(struct forest *fa, struct forest *fb, struct forest *fc, node_handle a, node_handle b, long da, _Bool dai, long db, _Bool dbi)
+{
+    int ok = 0;
+    long pav, pbv, wv; node_handle pan, pbn, wn;
+    evf_point(a, da, dai, &pav, &pan); evf_point(b, db, dbi, &pbv, &pbn);
+    { node_handle a1 = a;
+      if (evplus_plus__simplifiesToFirstArg(0, fa, &a1, fb, b)) {
+          if (a1 == a || a1 <= 0) { evf_point(a1, da, dai, &wv, &wn); if (evf_plus_agrees(fa, fb, fc, pav, pan, pbv, pbn, wv, wn)) ok |= 1; }
+      } else ok |= 1; }
+    { node_handle b1 = b;
+      if (evplus_plus__simplifiesToSecondArg(0, fa, a, fb, &b1)) {
+          if (b1 == b || b1 <= 0) { evf_point(b1, db, dbi, &wv, &wn); if (evf_plus_agrees(fa, fb, fc, pav, pan, pbv, pbn, wv, wn)) ok |= 2; }
+      } else ok |= 2; }
+    { if (a > 0 && evplus_plus__stopOnEqualArgs()) {     /* two equal terminals go to the kernel first */            /* makeEqualResult yields the constant 0: op(x, x) must be defined and 0 at every assignment */
+          if (evf_plus_agrees(fa, fa, fc, pav, pan, pav, pan, 0, OMEGA_NORMAL)) ok |= 4;
+      } else ok |= 4; }
+    return ok;
+}
+void h_evplus_plus_shortcuts_pw(void) { struct forest *fa, *fb, *fc; node_handle w_a = nondet_int(), w_b = nondet_int(); long w_da = nondet_long(), w_db = nondet_long(); _Bool w_dai = nondet_bool(), w_dbi = nondet_bool();
+    lemma_evplus_plus_shortcuts_pw(fa, fb, fc, w_a, w_b, w_da, w_dai, w_db, w_dbi); CANARY(); }
+
+int lemma_evplus_minus_kernel(struct forest *fa, struct forest *fb, struct forest *fc, node_handle a, node_handle b, const struct edge_value *av_, const struct edge_value *bv_)
+{
+    _Bool ai = (a == OMEGA_INFINITY), bi = (b == OMEGA_INFINITY);
+    struct edge_value cv; node_handle cn = 12345; cv.mytype = edge_type__VOID;
+    evplus_minus__apply_node(fa, a, fb, b, fc, &cn);
+    int exc = verif_exc; verif_exc = 0;
+    if (exc == 0) evplus_minus__apply_edge(av_, bv_, &cv);
+    if (bi) return exc == ERR_SUBTRACT_INFINITY;                          /* subtracting infinity: documented error, no value */
+    if (ai) return exc == 0 && cn == OMEGA_INFINITY;
+    return exc == 0 && cn == OMEGA_NORMAL && cv.mytype == edge_type__LONG && cv.ev_long == av_->ev_long - bv_->ev_long;
+}
+void h_evplus_minus_kernel(void) { struct forest *fa, *fb, *fc; struct edge_value *x, *y; node_handle w_a = nondet_int(), w_b = nondet_int(); lemma_evplus_minus_kernel(fa, fb, fc, w_a, w_b, x, y); CANARY(); }
+/* whenever a predicate answers "the result is the first (second) node", the node-level kernel on the operands' values at an arbitrary assignment
+ * raises nothing and, with the edge-level kernel, gives that node's value there */
+static int evf_minus_agrees(struct forest *fa, struct forest *fb, struct forest *fc, long pav, node_handle pan, long pbv, node_handle pbn, long wv, node_handle wn)
+{
+    node_handle cn = 12345; struct edge_value x, y, c; x.mytype = edge_type__LONG; x.ev_long = pav; y.mytype = edge_type__LONG; y.ev_long = pbv; c.mytype = edge_type__VOID;
+    evplus_minus__apply_node(fa, pan, fb, pbn, fc, &cn);
+    if (verif_exc) { verif_exc = 0; return 0; }
+    if (cn == OMEGA_INFINITY) return wn == OMEGA_INFINITY;
+    evplus_minus__apply_edge(&x, &y, &c);
+    return wn == OMEGA_NORMAL && c.mytype == edge_type__LONG && c.ev_long == wv;
+}
+int lemma_evplus_minus_shortcuts_pw(struct forest *fa, struct forest *fb, struct forest *fc, node_handle a, node_handle b, long da, _Bool dai, long db, _Bool dbi)
+{
+    int ok = 0;
+    long pav, pbv, wv; node_handle pan, pbn, wn;
+    evf_point(a, da, dai, &pav, &pan); evf_point(b, db, dbi, &pbv, &pbn);
+    { node_handle a1 = a;
+      if (evplus_minus__simplifiesToFirstArg(0, fa, &a1, fb, b)) {
+          if (a1 == a || a1 <= 0) { evf_point(a1, da, dai, &wv, &wn); if (evf_minus_agrees(fa, fb, fc, pav, pan, pbv, pbn, wv, wn)) ok |= 1; }
+      } else ok |= 1; }
+    { node_handle b1 = b;
+      if (evplus_minus__simplifiesToSecondArg(0, fa, a, fb, &b1)) {
+          if (b1 == b || b1 <= 0) { evf_point(b1, db, dbi, &wv, &wn); if (evf_minus_agrees(fa, fb, fc, pav, pan, pbv, pbn, wv, wn)) ok |= 2; }
+      } else ok |= 2; }
+    { if (a > 0 && evplus_minus__stopOnEqualArgs()) {     /* two equal terminals go to the kernel first */            /* makeEqualResult yields the constant 0: op(x, x) must be defined and 0 at every assignment */
+          if (evf_minus_agrees(fa, fa, fc, pav, pan, pav, pan, 0, OMEGA_NORMAL)) ok |= 4;
+      } else ok |= 4; }
+    return ok;
+}
+void h_evplus_minus_shortcuts_pw(void) { struct forest *fa, *fb, *fc; node_handle w_a = nondet_int(), w_b = nondet_int(); long w_da = nondet_long(), w_db = nondet_long(); _Bool w_dai = nondet_bool(), w_dbi = nondet_bool();
+    lemma_evplus_minus_shortcuts_pw(fa, fb, fc, w_a, w_b, w_da, w_dai, w_db, w_dbi); CANARY(); }
